@@ -51,7 +51,8 @@ def setup_engine(seed=0):
     import stone.frontend.ast as st_ast
     import stone.frontend.exception as st_exc
     import stone.cli_helpers as st_clih
-    for mod in (bv, bb, ss, ir_dt, ir_api, st_ast, st_exc, st_clih):
+    import stone.backend as st_backend
+    for mod in (bv, bb, ss, ir_dt, ir_api, st_ast, st_exc, st_clih, st_backend):
         for name in sorted(vars(mod)):
             obj = vars(mod)[name]
             if isinstance(obj, type) and obj.__module__ == mod.__name__:
@@ -64,6 +65,10 @@ def setup_engine(seed=0):
     symclass.install(E, bb)
     from . import genmodel
     genmodel.install(E, bb, bv)
+    from . import libmodel
+    libmodel.install(E)
+    libmodel.install_io(E)
+    libmodel.install_spec(E)
     import spec.runtime as S
 
     def m_re_valid(E, args, kw):
@@ -453,6 +458,7 @@ class Verifier:
     def verify(self, E, con, restrict=None):
         """Verify one contract class against the function it targets.  ``restrict`` = {param: k}
         limits a OneOf parameter to its k-th alternative (case split across processes)."""
+        E.yield_frame = con.opts.get('yield_frame')
         restrict = dict(restrict or {})
         E.force_choices = restrict.pop('#choices', None)
         E.param_restrict = restrict
@@ -466,6 +472,10 @@ class Verifier:
         except Exception as e:
             rep.unsupported = 'cannot resolve target: %s: %s' % (type(e).__name__, e)
             return rep
+        if con.opts.get('contextmanager') and hasattr(fn, '__wrapped__'):
+            # @contextmanager: the generator function itself is what is executed symbolically (yield = the
+            # point where the caller's with-body runs)
+            fn = fn.__wrapped__
         rep.file, rep.lines, rep.sha256 = source_info(fn)
         params = con.params
         pathno = [0]
